@@ -5,9 +5,9 @@ ID = "C16"
 GEN = "c16"
 HARNESS_TEST = "TestC16"
 COQ_MODEL = ["C16/Check.v", "Gen/C16Facts.v"]
-COQ_PROOF_DEPS = ["C16/Proofs.v"]
+COQ_PROOF_DEPS = ["C16/Proofs.v", "C16/ProofsSpelled.v"]
 COQ_OBLIG = ["C16/Property.v", "Gen/C16Oblig.v"]
-CASES_HEADER = "Require Import Nib.C16.Model Nib.C16.Spec Nib.C16.Check."
+CASES_HEADER = "Require Import Nib.C16.Model Nib.C16.Spec Nib.C16.Spelled Nib.C16.Check."
 CASE_TYPE = "case"
 MISMATCH_FN = "mismatch"
 VIOLATES_FN = "violates"
@@ -21,9 +21,11 @@ RULE = ("case = world (22 % of the generated cases: a fresh chain started from a
         "in somebody else's name, MsgExec with itself as grantee (inner signer itself / granter / sudoer without grant), "
         "MsgExec with a SPOOFED grantee (the sudoer named by the inner message), nested execs, contract-calls-contract, exec "
         "around wasm, called by owner or not; txs needing a contract's signature are signed with a foreign key; "
-        "8 fixed opener histories first; non-trivial = after an accepted sudoers change, a later privileged message comes from "
+        "every address field of every leaf (sender, new_root, each contracts entry) is written in lower case (76 %), valid upper "
+        "case (21 %) or undecodable mixed case (3 %), at top level, under MsgExec and dispatched by contracts; sudoers read back as accounts; "
+        "9 fixed opener histories first; non-trivial = after an accepted sudoers change, a later privileged message comes from "
         "an account whose permission differs from its initial one (stale-permission shape) or sits inside a carrier, or a "
-        "contract dispatches a MsgExec / a leaf in a foreign name / its own message as a current sudoer; "
+        "contract dispatches a MsgExec / a leaf in a foreign name / its own message as a current sudoer, or a leaf carries an upper-case address; "
         "distinct = distinct input")
 ASSUMPTIONS = [
     "payload validity of a gated message (valid / refused by ValidateBasic / refused by the handler) is a generator label; a wrong label shows as a mismatch",
@@ -46,18 +48,39 @@ def _b(x):
     return "true" if x else "false"
 
 
+_SP = {0: "SpLower", 1: "SpUpper", 2: "SpBad"}
+
+
+def _astr(i, sp):
+    return "(mkAStr %d %s)" % (int(i), _SP.get(int(sp or 0), "SpBad"))
+
+
 def _msg(m):
+    """the message as written: address fields of the leaves with their spelling (Spelled.smsg)"""
     t = m["t"]
     if t == "edit":
         a = {"add": "Add", "remove": "Remove"}.get(m.get("action"), "UnknownAction")
-        return "EditSudoers %s %d %s %s" % (a, m["sender"], _nats(m.get("cs") or []), _b(not m.get("bad")))
+        cs = m.get("cs") or []
+        csp = list(m.get("csp") or []) + [0] * len(cs)
+        return "SEdit %s %s [%s] %s" % (a, _astr(m["sender"], m.get("sp")),
+                                       "; ".join(_astr(c, s) for c, s in zip(cs, csp)), _b(not m.get("bad")))
     if t == "root":
-        return "ChangeRoot %d %d" % (m["sender"], m.get("new", 0))
+        return "SRoot %s %s" % (_astr(m["sender"], m.get("sp")), _astr(m.get("new", 0), m.get("nsp")))
     if t == "gated":
-        return "Gated %s %d %s" % (_GK[m["k"]], m["sender"], _b(m.get("pv", 0) == 0))
+        return "SGated %s %s %s" % (_GK[m["k"]], _astr(m["sender"], m.get("sp")), _b(m.get("pv", 0) == 0))
     if t == "wasm":
-        return "Wasm %d %d [%s]" % (m["sender"], m.get("c", _NKEYS), "; ".join("(%s)" % _msg(x) for x in (m.get("msgs") or [])))
-    return "Exec %d [%s]" % (m.get("grantee", 0), "; ".join("(%s)" % _msg(x) for x in (m.get("msgs") or [])))
+        return "SWasm %d %d [%s]" % (m["sender"], m.get("c", _NKEYS), "; ".join("(%s)" % _msg(x) for x in (m.get("msgs") or [])))
+    return "SExec %d [%s]" % (m.get("grantee", 0), "; ".join("(%s)" % _msg(x) for x in (m.get("msgs") or [])))
+
+
+def _spellings(l):
+    """spellings used by one leaf: set of 0/1/2"""
+    s = {int(l.get("sp") or 0)}
+    if l["t"] == "root":
+        s.add(int(l.get("nsp") or 0))
+    if l["t"] == "edit":
+        s |= {int(x or 0) for x in (l.get("csp") or [])[:len(l.get("cs") or [])]}
+    return s
 
 
 def _kind(k):
@@ -138,6 +161,9 @@ def nontrivial(rec):
                     return True
                 if wrapped and changed:
                     return True
+            for l in _leaves(m):
+                if 1 in _spellings(l):
+                    return True
             # message carriers in combination: a contract dispatching a MsgExec, or dispatching in the name
             # of a current sudoer, or a sudoer contract dispatching its own message
             for k in _carrier_shapes(m, cur):
@@ -178,6 +204,14 @@ def classify(rec):
             for l in _leaves(m):
                 k = l["t"] + ((":" + l.get("action", "")) if l["t"] == "edit" else "") + ((":" + l["k"]) if l["t"] == "gated" else "")
                 ks.append("leaf:" + k)
+                if int(l.get("sp") or 0) == 1:
+                    ks.append("spelling:upper-case-sender:" + l["t"])
+                if l["t"] == "root" and int(l.get("nsp") or 0) == 1:
+                    ks.append("spelling:upper-case-new-root")
+                if l["t"] == "edit" and 1 in {int(x or 0) for x in (l.get("csp") or [])[:len(l.get("cs") or [])]}:
+                    ks.append("spelling:upper-case-contract:" + l.get("action", ""))
+                if 2 in _spellings(l):
+                    ks.append("spelling:undecodable-address")
                 if l["t"] == "gated" and l.get("pv", 0):
                     ks.append("leaf:invalid-payload")
         if not o["same_sudo"]:
@@ -225,7 +259,11 @@ MANIFEST = {
                  "executes (C16_accepted_tree_well_authorised, C16_privileged_leaf_sudoer_and_backed, C16_gated_in_wasm_iff, "
                  "C16_gated_in_wasm_exec_iff; the variant whose wasm handler skips the signer guard for MsgExec wrappers is refuted: "
                  "C16_unguarded_wrapper_refuted, and Gen/C16Oblig.v C16_wasm_dispatch_guards_every_branch re-checks on every run that the "
-                 "tree is the guarded one); only the root in "
+                 "tree is the guarded one); address fields are strings decoded to identities before the identity-keyed model, so outcomes are "
+                 "independent of the (lower / upper case) spelling and an undecodable string refuses the tx (C16_outcome_independent_of_spelling, "
+                 "C16_history_independent_of_spelling, C16_undecodable_address_refuses_tx); a store keyed by the raw message strings is refuted and "
+                 "a canonicalising one proved to simulate the identity model (C16_raw_string_store_refuted, C16_canonical_store_simulates_identity_model; "
+                 "Gen/C16Oblig.v C16_sudoers_store_is_keyed_by_identity re-checks which one the tree has); only the root in "
                  "force edits the sudoers (C16_root_only_edits, C16_sudoers_change_only_by_root); a gated operation succeeds iff its "
                  "sender is root or a listed contract and the payload is valid, and under MsgExec iff additionally the authz condition "
                  "holds for the INNER signer (C16_gated_iff_permitted, C16_gated_in_exec_iff, C16_every_executed_leaf_authorised); a "
